@@ -489,6 +489,11 @@ class Exec:
                 elif x['op'] == 'Phi' and x.get('comment'):
                     if x['comment'] not in found:
                         found[x['comment']] = ('phi', {'k': 'reg', 'name': x['name'], 'type': x['type']}, False)
+                    if x['comment'] == 'rangeindex' and d in cfg['loops']:
+                        # rangeindexK: the hidden index of the range loop with ordinal K (visible in nested loops)
+                        nk_ = 'rangeindex%d' % cfg['loops'][d]['ordinal']
+                        if nk_ not in found:
+                            found[nk_] = ('phi', {'k': 'reg', 'name': x['name'], 'type': x['type']}, False)
                 elif x['op'] == 'Alloc' and x.get('comment') and x['comment'] not in ('complit', 'new', 'makeslice', 'varargs', 'slicelit', 'maplit') and not x['comment'].startswith('('):
                     # a local variable that lives in memory: its name denotes the address
                     if x['comment'] not in found:
